@@ -1,0 +1,13 @@
+//go:build verif
+
+// Contracts for the verification machinery in /verif (comment-only; compiled only with -tags verif).
+
+package signutil
+
+// the compact JWS a signer produces for a payload (the signature primitive itself is C09's subject, assumed here);
+// signing does not modify the model or the request information
+//@ spec signedBy(payload bytes, signer any) string
+//@ func SignModel
+//@   trusted
+//@   results s, err
+//@   ensures err == nil ==> jcsOK(model) && s == signedBy(jcs(model), boxed(signer))
